@@ -23,6 +23,7 @@ from ll2c import (P, tokenize, resolve, sizeof, alignof, field_off, IntT, FloatT
                   VoidT, FnT, OpaqueT, const_bytes)
 
 M64 = (1 << 64) - 1
+SLOWLOG = float(os.environ.get('LLSYM_SLOW', '0'))
 
 
 def m(n): return (1 << n) - 1
@@ -152,7 +153,11 @@ class Engine:
         t0 = time.time(); s.stats['queries'] += 1
         a = pc + [extra] if extra is not None else pc
         r = sol.check(*a)
-        s.stats['qtime'] += time.time() - t0
+        dt = time.time() - t0
+        s.stats['qtime'] += dt
+        if SLOWLOG and dt > SLOWLOG:
+            print('SLOW %.1fs pc=%d extra=%s' % (dt, len(pc), str(extra)[:400].replace('\n', ' ')), file=sys.stderr)
+            for c in pc[-6:]: print('     ', str(c)[:300].replace('\n', ' '), file=sys.stderr)
         if r == z3.unknown: raise Inconclusive('solver returned unknown: ' + sol.reason_unknown())
         if r == z3.sat:
             s.last_model = sol.model(); return True
@@ -1000,19 +1005,44 @@ def addadr(a, k):
     return simp(a + k)
 
 
+_vars_memo = {}
+
+
 def z3vars(e, acc=None, seen=None):
-    if acc is None: acc = {}; seen = set()
-    stack = [e]
-    while stack:
-        x = stack.pop()
-        i = x.get_id()
-        if i in seen: continue
-        seen.add(i)
-        if z3.is_const(x):
-            if x.decl().kind() == z3.Z3_OP_UNINTERPRETED: acc[x.decl().name()] = x
-            continue
-        stack.extend(x.children())
-    return acc
+    """free variables of a term: {name: const}.  Memoised per hash-consed sub-term (the memo keeps the terms alive so
+    that AST ids cannot be reused)."""
+    memo = _vars_memo
+    if len(memo) > 400000: memo.clear()
+    root = e.get_id()
+    hit = memo.get(root)
+    if hit is None:
+        stack = [(e, False)]
+        while stack:
+            x, done = stack.pop()
+            i = x.get_id()
+            if i in memo: continue
+            if z3.is_const(x):
+                memo[i] = (x, {x.decl().name(): x} if x.decl().kind() == z3.Z3_OP_UNINTERPRETED else {})
+                continue
+            ch = x.children()
+            if not done:
+                stack.append((x, True))
+                for c in ch:
+                    if c.get_id() not in memo: stack.append((c, False))
+            else:
+                d = None
+                for c in ch:
+                    cd = memo[c.get_id()][1]
+                    if cd:
+                        if d is None: d = cd
+                        elif d is not cd:
+                            if len(cd) > len(d): d, cd = cd, d
+                            if any(k not in d for k in cd):
+                                d = dict(d); d.update(cd)
+                memo[i] = (x, d if d is not None else {})
+        hit = memo[root]
+    if acc is None: return dict(hit[1]) if False else hit[1]
+    acc.update(hit[1]); return acc
 
 
 class NeedFork(Exception):
